@@ -80,7 +80,10 @@ def gen_cases(tier, seed):
         s = env.seed_for(seed, ID, tier, "readonly_kill", i)
         r = random.Random(env.seed_for(s, "descriptor"))
         out.append({"seed": s, "mode": "readonly_kill", "store": r.choice(["json", "pickle", "text", "binary", "staged_write", "staged_write_path"]), "path": r.choice(["str", "pathlib"]),
-                    "present": True, "value": r.choice(["small", "chunks"]), "filemode": r.choice([0o444, 0o444, 0o400, 0o555])})
+                    "present": True, "value": r.choice(["small", "chunks"]), "filemode": r.choice([0o444, 0o444, 0o400, 0o555]),
+                    # ... or the DIRECTORY is not the user's to change (mode 0555, somebody else's) while the existing target is writable for him: nothing can be
+                    # staged there, so the write fails - and the target keeps its complete previous value at whatever point the writer dies
+                    "locked_dir": i % 3 == 2})
     return out
 
 
@@ -333,6 +336,9 @@ def run_readonly_kill(desc):
                 f.write(old_bytes)
             os.chown(base, UID, UID)
             os.chmod(base, desc["filemode"])
+            if desc.get("locked_dir"):
+                os.chmod(base, 0o644)
+                os.chmod(d, 0o555)
             path = base if desc["path"] == "str" else pathlib.Path(base)
             plan = fsfault.Plan(k=k, action="exit")
             pid = os.fork()
@@ -358,7 +364,17 @@ def run_readonly_kill(desc):
                 res["counters"]["readonly_kill_unprivileged_user_unavailable"] = 1
                 res["nontrivial"] = False
                 return res
-            if not (os.WIFEXITED(status) and os.WEXITSTATUS(status) == 137):
+            if desc.get("locked_dir"):
+                # (the write cannot succeed; whether and where it died does not matter) the directory is handed back before the follow-up write
+                res["counters"]["locked_directory_points"] = res["counters"].get("locked_directory_points", 0) + 1
+                os.chmod(d, 0o777)
+                with open(base, "rb") as f:
+                    now = f.read()
+                if now != old_bytes:
+                    bad, mech = (f"an ordinary user's write into a directory he may not change (mode 555; the existing target itself is writable for him), killed at file operation {k}: "
+                                 f"the target holds {len(now)} bytes that are not the complete previous value ({len(old_bytes)} bytes) - nothing can be staged there, so nothing may be written"), "atomicity"
+                    break
+            elif not (os.WIFEXITED(status) and os.WEXITSTATUS(status) == 137):
                 return {"status": "inconclusive", "detail": f"[readonly_kill] the kill at operation {k} ({opname}) was never reached (child status {status})"}
             res["counters"]["readonly_kill_points"] += 1
             with open(base, "rb") as f:
@@ -479,8 +495,8 @@ def run_case(desc):
         ks = list(range(1, K + 1))
         for k in ks:
             opname = ops[k - 1].split(":")[0]
-            if opname == "remove":
-                continue  # cleanup path of a failing serialisation: a second fault, not enumerated
+            if opname == "remove" and ser_fails:
+                continue  # cleanup path of a failing serialisation: a second fault, not enumerated (a removal in a write that SUCCEEDS is a fault point like any other)
             faults = [("raise", e) for e in ERRS] + [("raise", SUBCLASS_ERRS[(k + desc["seed"]) % len(SUBCLASS_ERRS)]), ("raise", errno.ENOENT)] + [("exit", 0), ("raise_base", r.choice([0, 1]))]
             if opname == "replace":
                 faults.append(("raise", errno.EXDEV))
